@@ -220,11 +220,19 @@ func (m *monC04) OnObs(w *World, o *Obs) {
 		}
 		m.lastAttempt[o.Task] = o.T
 	}
+	sigSuffix := ""
 	if !ok {
-		// electrum (LWK) back-end: the task read the watcher's cached height, which
-		// the simulator cannot observe; the window bounds are not judged here.
-		w.Probe("C04:window-not-judged-lwk")
+		// electrum (LWK) back-end: the task reads the watcher's cached height, which the
+		// simulator cannot observe. What it can observe is which headers the electrum server
+		// had pushed to this node's subscription: a header that has been waiting there for
+		// two seconds is knowledge the node has, whether or not its reader got round to it
+		// (no unavoidable check-then-act gap is blamed that way).
+		w.Probe("C04:window-judged-by-pushed-headers-lwk")
 		h = r.Data.StartingBlockHeight
+		if hh, ok3 := n.ServedHeightBefore("lbtc", o.T-2*time.Second); ok3 && hh > h {
+			h = hh
+		}
+		sigSuffix = ":lwk"
 	}
 	if !r.Data.AnchorSet {
 		w.Violate("C04", "payment-without-anchor", "node %d attempted the claim payment of liquid swap %.8s without a stored anchor", o.Node, si.ID)
@@ -232,7 +240,7 @@ func (m *monC04) OnObs(w *World, o *Obs) {
 	}
 	a := r.Data.StartingBlockHeight
 	if h >= a+60 || h < a {
-		w.Violate("C04", "payment-outside-window", "node %d attempted the claim payment of liquid swap %.8s at liquid height %d (as last served to it), anchor %d, window [%d,%d)", o.Node, si.ID, h, a, a, a+60)
+		w.Violate("C04", "payment-outside-window"+sigSuffix, "node %d attempted the claim payment of liquid swap %.8s at liquid height %d (as last served to it), anchor %d, window [%d,%d)", o.Node, si.ID, h, a, a, a+60)
 	}
 	if h >= a+55 {
 		w.Probe("C04:near-window-end")
@@ -240,6 +248,20 @@ func (m *monC04) OnObs(w *World, o *Obs) {
 	b, err := DecodePayreqBody(o.Pay.Payreq)
 	if err == nil && (b.C > 29 || b.C < 0) {
 		w.Violate("C04", "invoice-cltv-above-29", "node %d attempted to pay a liquid claim invoice with final CLTV %d", o.Node, b.C)
+	}
+	if o.Pay.Lnd != nil {
+		// tier 2: the request the real lnd adapter emitted. lnd accepts a route only if its
+		// total time lock is strictly below cltv_limit, so the request permits cltv_limit-1
+		// blocks; 0 means "lnd's own maximum" (2016 blocks)
+		w.Probe("C04:lnd-request-checked")
+		permits := int64(o.Pay.Lnd.CltvLimit) - 1
+		if o.Pay.Lnd.CltvLimit <= 0 {
+			permits = 2016
+		}
+		if permits > 32 {
+			w.Violate("C04", fmt.Sprintf("route-limit-%d", permits), "node %d emitted a liquid claim payment request that permits a total route CLTV of %d blocks (cltv_limit %d), the maximum is 32", o.Node, permits, o.Pay.Lnd.CltvLimit)
+		}
+		return
 	}
 	if o.Pay.MaxCLTV != 32 {
 		w.Violate("C04", fmt.Sprintf("route-limit-%d", o.Pay.MaxCLTV), "node %d attempted a liquid claim payment with a total route CLTV limit of %d (must be 32)", o.Node, o.Pay.MaxCLTV)
